@@ -14,11 +14,7 @@ package vh
 import (
 	"fmt"
 	"os"
-	"path/filepath"
-	"sort"
-	"strings"
 	"testing"
-	"time"
 
 	"pgregory.net/rapid"
 
@@ -27,307 +23,23 @@ import (
 	"github.com/olareg/olareg/internal/vfs"
 )
 
+var c11iVfsSched = c11iSched{
+	name: "vfs", stores: []string{"dir"}, unit: "file-system calls",
+	begin:   func(root string) { vfs.Reset(root, false) },
+	steps:   func() int { n := vfs.Steps(); vfs.PauseAtStep(0, nil); return n },
+	pauseAt: func(root string, k int, fn func()) { vfs.Reset(root, false); vfs.PauseAtStep(k, fn) },
+	end:     func() { vfs.Reset("", false) },
+}
+
 const c11iRule = "TestC11Interleave: directory store with a generated initial content (image under a tag, child manifest present as manifest / as a blob only / absent, artifact present or not); two write requests R1, R2 from " +
 	"{push image by tag, push another image under the same tag, push by digest, push index over the child (OCI or docker media type), push the child, delete tag, delete manifest by digest, push artifact 1/2 of one subject, " +
 	"delete artifact, delete a layer blob, push image using that layer, upload the layer}; R1 is paused before its k-th file-system call (k uniform over the calls R1 makes alone), R2 runs in the gap; oracle = (answers, readable state, " +
 	"readable state after restart) equal those of R1;R2 or of R2;R1 executed sequentially on copies of the same directory; readable state = tag listing, every manifest of the universe by digest (status, Content-Type), " +
 	"every tag (status, digest), referrers of the subject (set), blobs (status); non-trivial = R2 ran inside the gap (not after R1) and the two sequential orders differ in answers or state; distinct = (initial content, R1, R2, k)"
 
-type c11iUniverse struct {
-	cfg, layer                                      []byte
-	cd, ld                                          string
-	base, x, y, child, art1, art2, usesLayer        []byte
-	idxOCI, idxDocker                               []byte
-	baseD, xD, yD, childD, art1D, art2D, usesLayerD string
-	idxOCID, idxDockerD                             string
-	manifests                                       map[string]string // digest -> name
-}
-
-func newC11iUniverse() *c11iUniverse {
-	u := &c11iUniverse{cfg: []byte("{}"), layer: []byte("a layer that one image uses"), manifests: map[string]string{}}
-	u.cd, u.ld = dig("sha256", u.cfg), dig("sha256", u.layer)
-	mk := func(name string, raw []byte) string {
-		d := dig("sha256", raw)
-		u.manifests[d] = name
-		return d
-	}
-	u.base, _ = buildImage(mtImage, mtConfig, u.cd, 2, nil, nil, nil, "", map[string]string{"m": "base"})
-	u.baseD = mk("base", u.base)
-	u.x, _ = buildImage(mtImage, mtConfig, u.cd, 2, nil, nil, nil, "", map[string]string{"m": "x"})
-	u.xD = mk("X", u.x)
-	u.y, _ = buildImage(mtImage, mtConfig, u.cd, 2, nil, nil, nil, "", map[string]string{"m": "y"})
-	u.yD = mk("Y", u.y)
-	u.child, _ = buildImage(mtImage, mtConfig, u.cd, 2, nil, nil, nil, "", map[string]string{"m": "child"})
-	u.childD = mk("child", u.child)
-	subj := &mdesc{MediaType: mtImage, Digest: u.baseD, Size: int64(len(u.base))}
-	u.art1, _ = buildImage(mtImage, mtConfig, u.cd, 2, nil, nil, subj, "application/vnd.x.one", nil)
-	u.art1D = mk("artifact1", u.art1)
-	u.art2, _ = buildImage(mtImage, mtConfig, u.cd, 2, nil, nil, subj, "application/vnd.x.two", nil)
-	u.art2D = mk("artifact2", u.art2)
-	u.usesLayer, _ = buildImage(mtImage, mtConfig, u.cd, 2, []string{u.ld}, []int{len(u.layer)}, nil, "", map[string]string{"m": "uses the layer"})
-	u.usesLayerD = mk("layered", u.usesLayer)
-	u.idxOCI, _ = buildIndex(mtIndex, []mdesc{{MediaType: mtImage, Digest: u.childD, Size: int64(len(u.child))}}, nil, "", nil)
-	u.idxOCID = mk("index(child as OCI image)", u.idxOCI)
-	u.idxDocker, _ = buildIndex(mtIndex, []mdesc{{MediaType: mtDImage, Digest: u.childD, Size: int64(len(u.child))}}, nil, "", map[string]string{"lists": "the child as a docker manifest"})
-	u.idxDockerD = mk("index(child as docker manifest)", u.idxDocker)
-	return u
-}
-
-type c11iReq struct {
-	name string
-	run  func(srv *olareg.Server) resp
-	del  bool
-}
-
-func (u *c11iUniverse) requests() []c11iReq {
-	put := func(ref, mt string, raw []byte) func(*olareg.Server) resp {
-		return func(s *olareg.Server) resp {
-			return doReq(s, "PUT", "/v2/r/manifests/"+ref, raw, hdr("Content-Type", mt))
-		}
-	}
-	del := func(p string) func(*olareg.Server) resp {
-		return func(s *olareg.Server) resp { return doReq(s, "DELETE", "/v2/r/"+p, nil, nil) }
-	}
-	return []c11iReq{
-		{"PUT X under tag t", put("t", mtImage, u.x), false},
-		{"PUT Y under tag t", put("t", mtImage, u.y), false},
-		{"PUT X by digest", put(u.xD, mtImage, u.x), false},
-		{"PUT X under tag t2", put("t2", mtImage, u.x), false},
-		{"PUT index (child as OCI image) under tag multi", put("multi", mtIndex, u.idxOCI), false},
-		{"PUT index (child as docker manifest) under tag multi2", put("multi2", mtIndex, u.idxDocker), false},
-		{"PUT child by digest", put(u.childD, mtImage, u.child), false},
-		{"PUT child under tag c", put("c", mtImage, u.child), false},
-		{"DELETE tag t", del("manifests/t"), true},
-		{"DELETE X by digest", del("manifests/" + u.xD), true},
-		{"DELETE child by digest", del("manifests/" + u.childD), true},
-		{"PUT artifact1 (subject base)", put(u.art1D, mtImage, u.art1), false},
-		{"PUT artifact2 (subject base)", put(u.art2D, mtImage, u.art2), false},
-		{"PUT artifact1 under tag sig", put("sig", mtImage, u.art1), false},
-		{"DELETE artifact1 by digest", del("manifests/" + u.art1D), true},
-		{"DELETE base by digest", del("manifests/" + u.baseD), true},
-		{"DELETE layer blob", del("blobs/" + u.ld), true},
-		{"PUT image that uses the layer under tag l", put("l", mtImage, u.usesLayer), false},
-		{"upload the layer", func(s *olareg.Server) resp {
-			return doReq(s, "POST", "/v2/r/blobs/uploads/?digest="+u.ld, u.layer, nil)
-		}, false},
-	}
-}
-
-// observe reads everything a client can read of repository r.
-func (u *c11iUniverse) observe(srv *olareg.Server) []string {
-	out := []string{}
-	r := doReq(srv, "GET", "/v2/r/tags/list", nil, nil)
-	out = append(out, fmt.Sprintf("tags: %d %s", r.code, strings.TrimSpace(string(r.body))))
-	ds := []string{}
-	for d := range u.manifests {
-		ds = append(ds, d)
-	}
-	sort.Strings(ds)
-	for _, d := range ds {
-		r := doReq(srv, "GET", "/v2/r/manifests/"+d, nil, hdr("Accept", acceptAll))
-		out = append(out, fmt.Sprintf("manifest %s: %d %s", u.manifests[d], r.code, r.hdr.Get("Content-Type")))
-	}
-	for _, tg := range []string{"base", "t", "t2", "multi", "multi2", "c", "sig", "l"} {
-		r := doReq(srv, "HEAD", "/v2/r/manifests/"+tg, nil, hdr("Accept", acceptAll))
-		name := u.manifests[r.hdr.Get("Docker-Content-Digest")]
-		out = append(out, fmt.Sprintf("tag %s: %d %s %s", tg, r.code, name, r.hdr.Get("Content-Type")))
-	}
-	r = doReq(srv, "GET", "/v2/r/referrers/"+u.baseD, nil, nil)
-	listed := []string{}
-	for d, n := range u.manifests {
-		if strings.Contains(string(r.body), d) {
-			listed = append(listed, n)
-		}
-	}
-	sort.Strings(listed)
-	out = append(out, fmt.Sprintf("referrers of base: %d %v", r.code, listed))
-	for _, b := range []struct{ n, d string }{{"config", u.cd}, {"layer", u.ld}} {
-		out = append(out, fmt.Sprintf("blob %s: %d", b.n, doReq(srv, "HEAD", "/v2/r/blobs/"+b.d, nil, nil).code))
-	}
-	return out
-}
-
-type c11iOutcome struct {
-	r1, r2       int
-	state, again []string // readable state, and the same after a restart
-	inGap        bool
-}
-
-func (o c11iOutcome) key(bothDeletes bool) string {
-	a, b := o.r1, o.r2
-	if bothDeletes {
-		// a second 202 for a delete that raced past the same existence check is accepted (DESIGN.md §3 C11)
-		if a == 404 {
-			a = 202
-		}
-		if b == 404 {
-			b = 202
-		}
-	}
-	return fmt.Sprintf("R1=%d R2=%d\n%s\n-- after a restart\n%s", a, b, strings.Join(o.state, "\n"), strings.Join(o.again, "\n"))
-}
-
-func c11iProperty(t *rapid.T, st *Stats) {
-	u := newC11iUniverse()
-	reqs := u.requests()
-	// requests that touch the same tag, manifest, subject or blob (4 in 5 cases), or any two
-	groups := [][]int{{0, 1, 2, 3, 8, 9}, {4, 5, 6, 7, 10}, {11, 12, 13, 14, 15}, {16, 17, 18}}
-	pool := []int{}
-	if g := rapid.IntRange(0, len(groups)).Draw(t, "conflictGroup"); g < len(groups) {
-		pool = groups[g]
-	} else {
-		for i := range reqs {
-			pool = append(pool, i)
-		}
-	}
-	R1, R2 := reqs[rapid.SampledFrom(pool).Draw(t, "R1")], reqs[rapid.SampledFrom(pool).Draw(t, "R2")]
-	childState := rapid.SampledFrom([]string{"manifest", "blob only", "blob only", "absent"}).Draw(t, "childInitially")
-	withX := rapid.Bool().Draw(t, "XunderTagInitially")
-	withArt := rapid.Bool().Draw(t, "artifact1Initially")
-	withLayer := rapid.Bool().Draw(t, "layerInitially")
-	typePair := func(a, b c11iReq) bool {
-		return strings.HasPrefix(a.name, "PUT index (child as docker") && strings.HasPrefix(b.name, "PUT child")
-	}
-	if (typePair(R1, R2) || typePair(R2, R1)) && avoid("C11/index-child-type-check-not-atomic") {
-		st.Exclude("C11/index-child-type-check-not-atomic: an index that lists the child under another media type, concurrent with the push of the child")
-		R2 = reqs[0]
-	}
-	initial := fmt.Sprintf("initially: base tagged; child %s; X under tag t: %v; artifact1: %v; layer: %v", childState, withX, withArt, withLayer)
-	// ---- the directory
-	tmp := mkTemp("c11i")
-	defer os.RemoveAll(tmp)
-	src := filepath.Join(tmp, "src")
-	conf := func(root string) config.Config {
-		c := baseConf(config.StoreDir, root)
-		return c
-	}
-	{
-		ws := olareg.New(conf(src))
-		must := func(r resp, want int, what string) {
-			if r.code != want {
-				t.Fatalf("setup: %s answered %d %s", what, r.code, trunc(r.body, 200))
-			}
-		}
-		must(doReq(ws, "POST", "/v2/r/blobs/uploads/?digest="+u.cd, u.cfg, nil), 201, "config")
-		must(doReq(ws, "PUT", "/v2/r/manifests/base", u.base, hdr("Content-Type", mtImage)), 201, "base")
-		switch childState {
-		case "manifest":
-			must(doReq(ws, "PUT", "/v2/r/manifests/"+u.childD, u.child, hdr("Content-Type", mtImage)), 201, "child")
-		case "blob only":
-			must(doReq(ws, "POST", "/v2/r/blobs/uploads/?digest="+u.childD, u.child, nil), 201, "child as a blob")
-		}
-		if withX {
-			must(doReq(ws, "PUT", "/v2/r/manifests/t", u.x, hdr("Content-Type", mtImage)), 201, "X")
-		}
-		if withArt {
-			must(doReq(ws, "PUT", "/v2/r/manifests/"+u.art1D, u.art1, hdr("Content-Type", mtImage)), 201, "artifact1")
-		}
-		if withLayer {
-			must(doReq(ws, "POST", "/v2/r/blobs/uploads/?digest="+u.ld, u.layer, nil), 201, "layer")
-		}
-		_ = ws.Close()
-	}
-	vfs.Reset("", false)
-	defer vfs.Reset("", false)
-	// one execution on a fresh copy; order: 0 = R1;R2, 1 = R2;R1, 2 = R1 paused before its k-th call, R2 in the gap
-	exec := func(order, k int) (c11iOutcome, int) {
-		root := filepath.Join(tmp, fmt.Sprintf("run%d", order))
-		copyTree(src, root)
-		defer os.RemoveAll(root)
-		srv := olareg.New(conf(root))
-		var o c11iOutcome
-		steps := 0
-		switch order {
-		case 0:
-			// the repository is loaded by a first read, as it is in the other executions, so that k counts R1's own calls
-			_ = doReq(srv, "GET", "/v2/r/tags/list", nil, nil)
-			vfs.Reset(root, false)
-			o.r1 = R1.run(srv).code
-			steps = vfs.Steps()
-			o.r2 = R2.run(srv).code
-		case 1:
-			_ = doReq(srv, "GET", "/v2/r/tags/list", nil, nil)
-			o.r2 = R2.run(srv).code
-			o.r1 = R1.run(srv).code
-		case 2:
-			_ = doReq(srv, "GET", "/v2/r/tags/list", nil, nil)
-			vfs.Reset(root, false)
-			done := make(chan int, 1)
-			started := false
-			vfs.PauseAtStep(k, func() {
-				started = true
-				go func() { done <- R2.run(srv).code }()
-				select {
-				case c := <-done:
-					o.inGap = true
-					done <- c
-				case <-time.After(100 * time.Millisecond): // R2 waits for something R1 holds: it finishes after R1
-				}
-			})
-			o.r1 = R1.run(srv).code
-			vfs.PauseAtStep(0, nil)
-			if !started {
-				go func() { done <- R2.run(srv).code }()
-			}
-			select {
-			case o.r2 = <-done:
-			case <-time.After(20 * time.Second):
-				o.r2 = -1
-			}
-		}
-		vfs.Reset("", false)
-		o.state = u.observe(srv)
-		_ = srv.Close()
-		srv = olareg.New(conf(root))
-		o.again = u.observe(srv)
-		_ = srv.Close()
-		return o, steps
-	}
-	a, steps := exec(0, 0)
-	b, _ := exec(1, 0)
-	if steps == 0 {
-		steps = 1
-	}
-	trace := []string{initial, "R1: " + R1.name, "R2: " + R2.name}
-	fail := func(key, f string, x ...any) { Fail(t, st, key, fmt.Sprintf(f, x...), trace, nil) }
-	both := R1.del && R2.del
-	differ := a.key(both) != b.key(both)
-	// up to three pause points: where R1 holds the repository, R2 can only wait (that execution is checked all the same)
-	var c c11iOutcome
-	k := 0
-	for attempt := 0; attempt < 3; attempt++ {
-		k = rapid.IntRange(1, steps).Draw(t, "pauseBeforeCall")
-		c, _ = exec(2, k)
-		trace = append(trace, fmt.Sprintf("R1 makes %d file-system calls alone; paused before call %d; R2 ran inside the gap: %v", steps, k, c.inGap))
-		c11iJudge(fail, R1, R2, a, b, c, both, k, typePair(R1, R2) || typePair(R2, R1))
-		if c.inGap {
-			break
-		}
-	}
-	st.Case(trace, c.inGap && differ, "R1:"+R1.name, "R2:"+R2.name, fmt.Sprintf("R2 inside the gap:%v", c.inGap), fmt.Sprintf("sequential orders differ:%v", differ))
-}
-
-func c11iJudge(fail func(string, string, ...any), R1, R2 c11iReq, a, b, c c11iOutcome, both bool, k int, isTypePair bool) {
-	if c.r2 == -1 {
-		fail("request-stuck", "R2 did not finish within 20 s after R1 had returned")
-	}
-	for _, code := range []int{c.r1, c.r2} {
-		if code >= 500 {
-			fail("server-error", "interleaved execution answered R1=%d R2=%d", c.r1, c.r2)
-		}
-	}
-	if c.key(both) != a.key(both) && c.key(both) != b.key(both) {
-		key := "not-serializable"
-		if isTypePair {
-			key = "index-child-type-check-not-atomic"
-		}
-		fail(key, "the interleaved execution agrees with neither sequential order.\n=== interleaved (R1 paused before call %d, R2 in the gap: %v)\n%s\n=== R1;R2\n%s\n=== R2;R1\n%s", k, c.inGap, c.key(both), a.key(both), b.key(both))
-	}
-}
-
 func TestC11Interleave(t *testing.T) {
 	st := newStats("TestC11Interleave", "C11", c11iRule)
-	rapid.Check(t, func(rt *rapid.T) { c11iProperty(rt, st) })
+	rapid.Check(t, func(rt *rapid.T) { c11iProperty(rt, st, c11iVfsSched) })
 }
 
 // TestKF_C11_IndexChildTypeCheck reproduces the listed finding with an owned schedule: the push of an index that lists
